@@ -1634,7 +1634,9 @@ func (a *Adversary) crossViewProof(h, v uint64) (*ref.Proof, *spi.Blk) {
 	for k := range sigs {
 		keys = append(keys, k)
 	}
-	sort.Slice(keys, func(i, j int) bool { return keys[i].v < keys[j].v || (keys[i].v == keys[j].v && keys[i].hash < keys[j].hash) })
+	sort.Slice(keys, func(i, j int) bool {
+		return keys[i].v < keys[j].v || (keys[i].v == keys[j].v && keys[i].hash < keys[j].hash)
+	})
 	for _, k := range keys {
 		blk := blocks[k.hash]
 		if blk == nil {
